@@ -20,7 +20,7 @@ LEVEL = "exploration"
 TECHNIQUE = "exhaustive enumeration of terms x dictionaries x cache warmth with the three operations run on the real objects; fault pass per user callable"
 RULE = (
     "terms = contexts^d x leaves (d<=1 with all warm-ups and faults, d=2 cold quick; "
-    "thorough adds all warm-ups at d=2 and d=3 on core contexts); total pass: validate/keys/evaluate succeed or fail "
+    "thorough: d=2 with same-dictionary warm-up, all warm-ups + faults at d=2 over the core contexts, d=3 cold over 12 core contexts); total pass: validate/keys/evaluate succeed or fail "
     "together (dictionaries with an out-of-domain value excluded, as the property conditions on in-domain values); "
     "no dataset body runs during validate/keys unless the reference marks it as needed to choose a branch; fault "
     "pass: each body/step/predicate/effect raises always or on one argument value, and a passing validate(o) must not "
@@ -37,9 +37,10 @@ CORE = [
 
 def cases(tier, seed):
     out = []
-    plan = [(0, None, "all"), (1, None, "all"), (2, None, "cold" if tier == "quick" else "all")]
+    plan = [(0, None, "all"), (1, None, "all"), (2, None, "cold" if tier == "quick" else "same")]
     if tier == "thorough":
-        plan.append((3, CORE, "same"))
+        plan.append((2, CORE, "all"))
+        plan.append((3, CORE[:12], "cold"))
     for depth, ctxs, warm in plan:
         n = sum(1 for _ in cat.catalogue(depth, None, ctxs))
         step = 10 if (warm == "all" and depth >= 1) else 40
